@@ -392,6 +392,9 @@ func runWire(w wire) (*wireResult, error) {
 			if (w.Pad+i)%3 == 0 {
 				e = a.Name + " = " + a.Text
 			}
+			if w.Pad < 0 { // compact rendering, as stored text or other peers may send it
+				e = a.Name + []string{"=", "= ", " ="}[(i-w.Pad)%3] + a.Text
+			}
 			res.Exprs = append(res.Exprs, e)
 			res.Names = append(res.Names, a.Name)
 			res.Texts = append(res.Texts, a.Text)
@@ -768,6 +771,78 @@ func litCase(c *core.Ctx, text string) {
 	}
 }
 
+// splitCase: one whole expression string through parseAndInsertExpression (hook). Reference, written
+// from the wire format: the name is everything before the FIRST '=' (blanks trimmed), the value
+// text everything after it; the value is what the full parser assigns to that text.
+func splitCase(c *core.Ctx, e string) {
+	ad := classad.New()
+	var derr error
+	func() {
+		defer func() {
+			if r := recover(); r != nil {
+				derr = fmt.Errorf("panic: %v", r)
+			}
+		}()
+		derr = message.VerifParseAndInsertExpression(ad, e)
+	}()
+	desc := map[string]interface{}{"kind": "split", "text": []byte(e)}
+	obs := "None"
+	var gotName string
+	names := ad.GetAttributes()
+	if derr == nil && len(names) == 1 {
+		gotName = names[0]
+		x, _ := ad.Lookup(gotName)
+		var ol *olit
+		if x != nil {
+			if pe, err := parser.ParseExpr(x.String()); err == nil && astLit(pe) != nil {
+				ol = valueLit(x.Eval(classad.New()))
+			}
+		}
+		obs = fmt.Sprintf("(Some (%s, %s))", bs(gotName), ol.term())
+	}
+	c.AddCase(fmt.Sprintf("CSplit %s %s", bs(e), obs), desc)
+	c.OracleCheck()
+	if key, msg := splitOracle(e, ad, derr); key != "" {
+		c.OracleFail(key, msg, desc)
+	} else if derr == nil {
+		c.Nontrivial("split:" + e)
+	}
+	c.Count("split-cases")
+}
+
+func splitOracle(e string, ad *classad.ClassAd, derr error) (string, string) {
+	i := strings.IndexByte(e, '=')
+	if i < 0 {
+		if derr == nil {
+			return "split-differs", fmt.Sprintf("expression string %q has no '=' but was accepted", e)
+		}
+		return "", ""
+	}
+	refName, refVal := strings.TrimSpace(e[:i]), strings.TrimSpace(e[i+1:])
+	want, perr := parser.ParseExpr(refVal)
+	if refName == "" || perr != nil {
+		return "", "" // nothing the statement promises (the old-string fallback is checked elsewhere)
+	}
+	if derr != nil {
+		return "split-differs", fmt.Sprintf("expression string %q (name %q, value %q - a valid expression) is rejected by the parsing receiver: %v", e, refName, refVal, derr)
+	}
+	names := ad.GetAttributes()
+	if len(names) != 1 || names[0] != refName {
+		return "split-differs", fmt.Sprintf("expression string %q: attribute stored as %q, the text before the first '=' is %q", e, names, refName)
+	}
+	got, _ := ad.Lookup(refName)
+	if d := diffExpr(got, want); d != "" {
+		return "split-differs", fmt.Sprintf("expression string %q (value text %q): %s", e, refVal, d)
+	}
+	return "", ""
+}
+
+var splitSeps = []string{" = ", "=", " =", "= ", "  =  ", "\t=\t", " =\t", "   ="}
+var splitNames = []string{"A", "Args", "Req", "x_1", "MyType", "ZKM"}
+var splitValues = []string{`"--mode = fast"`, `"a = b"`, `"a=b"`, `" = "`, `"="`, `"x" "= y"`, `A == 1`, `A==1`, `A =?= 1`, `A=?=1`, `A =!= UNDEFINED`, `B=!=2`,
+	`x =?= "p = q"`, `strcat("k = ", "v")`, `strcat("k=","v")`, `{ "a = b", 2 }`, `[ p = 1 ]`, `[p=1;q="r = s"]`, `[ p = 1; q = [ r = 2 ] ].q.r`,
+	`ifThenElse(a == b, "y = 1", "n")`, `(A = 1)`, `A = 1`, `1`, `-5`, `true`, `1.5`, `"plain"`, `a <= b`, `a >= b`, `a != b`, `!(a == b)`, `a = = b`, `= 1`, `"unterminated = `, ``}
+
 // ---- expression grammar ----------------------------------------------------
 
 var strAtoms = []string{`"hello"`, `""`, `"a b"`, `"quote \" inside"`, `"back\\slash"`, `"tab\there"`, `"nl\nx"`, `"caf\303\251"`, `"é✓🙂"`, `"a=b"`, `"semi;colon]"`, `"// not a comment"`, `"it's"`, `"\001\177"`,
@@ -984,6 +1059,18 @@ func gen(c *core.Ctx) error {
 	}
 	oldRec("", 4)
 
+	// 3b. the name/value split of the parsing receiver: every rendering of the separator x values
+	// that themselves contain '=', ' = ', '==', '=?=', '=!='
+	for _, n := range splitNames {
+		for _, sep := range splitSeps {
+			for _, v := range splitValues {
+				splitCase(c, n+sep+v)
+			}
+		}
+	}
+	for _, e := range []string{"", "=", " = ", "A", "A B", "= 5", " =5", "A=", "A =", "A = ", "A==1", "A=?=1", "A =?= 1", "a b = 1", "A = 1 = 2", "A=B=C", "A = \"x\" = 1"} {
+		splitCase(c, e)
+	}
 	// 4. wire
 	nAds := 40
 	if !c.Quick() {
@@ -1061,6 +1148,14 @@ func gen(c *core.Ctx) error {
 			return err
 		}
 	}
+	// compact renderings (no blanks around the first '=') of values that contain ' = ', '==', '=?='
+	for p := -1; p >= -3; p-- {
+		if err := wireCase(c, wire{Kind: "wire", Raw: true, Pad: p, My: "Job", Attrs: []wattr{
+			{"Args", `"--mode = fast"`}, {"Req", `(Cpus == 1) && (Arch =?= "x = y")`}, {"Env", `strcat("k = ", "v")`},
+			{"Nested", `[ p = 1; q = "r = s" ]`}, {"N", "42"}, {"S", `"a=b"`}, {"L", `{ "a = b", 2 }`}, {"T", `x =!= undefined`}}}); err != nil {
+			return err
+		}
+	}
 	// a type name as long as isTypeName allows
 	if err := wireCase(c, wire{Kind: "wire", Attrs: []wattr{{"Name", `"x"`}, {"Cpus", "4"}}, My: strings.Repeat("T", 128), Tg: strings.Repeat("j", 100)}); err != nil {
 		return err
@@ -1090,6 +1185,22 @@ func replay(raw json.RawMessage) error {
 		return err
 	}
 	switch d.Kind {
+	case "split":
+		e := string(d.Text)
+		ad := classad.New()
+		var derr error
+		func() {
+			defer func() {
+				if r := recover(); r != nil {
+					derr = fmt.Errorf("panic: %v", r)
+				}
+			}()
+			derr = message.VerifParseAndInsertExpression(ad, e)
+		}()
+		if key, msg := splitOracle(e, ad, derr); key != "" {
+			return fmt.Errorf("%s: %s", key, msg)
+		}
+		return nil
 	case "lit":
 		if key, msg := checkText(string(d.Text)); key != "" {
 			return fmt.Errorf("%s: %s", key, msg)
